@@ -24,8 +24,8 @@ SPEC = dict(
              instances=[I(e, bound='whole value range of the integer type') for e in ['int_u8', 'int_i8', 'int_u16', 'int_i16', 'int_u32', 'int_i32', 'int_u64', 'int_i64', 'int_range', 'bool']]),
         dict(name='sasl', harness='h_sasl.cpp', tus=['src/base/QXmppSasl.cpp', 'src/base/QXmppStreamManagement.cpp', 'src/base/QXmppUtils.cpp', 'src/base/QXmppStanza.cpp'], models=['qt_core.c', 'qt_list.c', 'qt_dom.c'],
              instances=[I(e, unwind=10) for e in ['sasl_auth', 'sasl_challenge', 'sasl_response', 'sasl_success', 'fast_token_request', 'fast_request', 'sasl2_challenge', 'sasl2_response']]
-                       + CASES('sasl_failure', FAIL_CASES, unwind=10) + CASES('bind2_feature', 2, unwind=10) + CASES('bind2_request', [c for c in range(64) if (c & 8) or c < 8], unwind=10)
-                       + CASES('bind2_bound', 2, unwind=10) + CASES('fast_feature', 2, unwind=10) + CASES('sasl2_failure', FAIL2_CASES, unwind=10)
+                       + CASES('sasl_failure', FAIL_CASES, quick=FAIL_CASES[:2] + FAIL_CASES[2::5], unwind=10) + CASES('bind2_feature', 2, unwind=10) + CASES('bind2_request', [c for c in range(64) if (c & 8) or c < 8], quick=[0, 2, 4, 7, 8, 13, 15, 27, 44, 45, 46, 47, 63], unwind=10)
+                       + CASES('bind2_bound', 2, unwind=10) + CASES('fast_feature', 2, unwind=10) + CASES('sasl2_failure', FAIL2_CASES, quick=FAIL2_CASES[::4], unwind=10)
                        + CASES('sasl2_continue', 3, unwind=10) + CASES('sasl2_abort', 1, unwind=10)
                        + CASES('sasl2_success', 5, unwind=10) + CASES('sasl2_authenticate', 7, quick=[0, 127, 85, 42, 3, 124, 31, 96, 7, 64], unwind=10)),
     ],
